@@ -238,15 +238,31 @@ PAIRS = (("plain", "plain"), ("bounded", "fd2"), ("fd2", "fd3"), ("fd3", "fd3"),
          ("restart", "scaler"), ("update", "bounded"))
 
 
+def fresh_digest(spec, v):
+    """digest of one call performed in a new interpreter (nothing ran before it)"""
+    code = ("import sys; sys.path.insert(0, %r); sys.path.insert(0, %r);"
+            "from lbv.props import c14; print(c14.make_call(%r, %d)()[0])"
+            % (core.VERIF, core.REPO, spec, v))
+    out = subprocess.run([sys.executable, "-B", "-c", code], capture_output=True, text=True,
+                         env=dict(__import__("os").environ, LBV_REPO=core.REPO))
+    return out.stdout.strip().splitlines()[-1] if out.stdout.strip() else out.stderr[-300:]
+
+
 def cases(tier, variants):
+    from concurrent.futures import ThreadPoolExecutor
     for v in variants:
         for s in SPECS:
             yield dict(part="fresh", var=v, spec=s)
+        # reference results of the sequences: each spec run alone in a new interpreter (a
+        # long-lived worker may already carry state left by earlier cases)
+        with ThreadPoolExecutor(len(SPECS)) as ex:
+            pristine = list(ex.map(lambda s_: fresh_digest(s_, v), SPECS))
         for L in (1, 2, 3):
             for seq in itertools.product(range(len(SPECS)), repeat=L):
                 if L == 3 and tier == "quick" and (seq[0] + seq[1] + seq[2]) % 3 != v % 3:
                     continue      # quick: a third of the length-3 sequences (seed-rotated)
-                yield dict(part="seq", var=v, seq=list(seq))
+                yield dict(part="seq", var=v, seq=list(seq),
+                           pristine={str(si): pristine[si] for si in set(seq)})
         for ip in (-1, 0, 1, 50, 99, 100, 101, 1000):
             for lg in (0, 1):
                 for s in ("print", "update", "bounded", "dropper", "boxhit", "boxhit1",
@@ -289,22 +305,20 @@ def run(case):
     viol = []
     if part == "fresh":
         d0, _ = make_call(case["spec"], v)()
-        code = ("import sys; sys.path.insert(0, %r); sys.path.insert(0, %r);"
-                "from lbv.props import c14; print(c14.make_call(%r, %d)()[0])"
-                % (core.VERIF, core.REPO, case["spec"], v))
-        out = subprocess.run([sys.executable, "-B", "-c", code], capture_output=True, text=True,
-                             env=dict(__import__("os").environ, LBV_REPO=core.REPO))
-        got = out.stdout.strip().splitlines()[-1] if out.stdout.strip() else out.stderr[-300:]
+        got = fresh_digest(case["spec"], v)
         if got != d0:
             viol.append(V("fresh_process_result_differs", fresh=got, here=d0))
         return dict(viol=viol, outcome="fresh", stats={"fresh_process_runs": 1})
     if part == "seq":
-        base = {}
+        # reference = the result each spec gives when run alone in a new interpreter
+        # (recorded with the case by cases(); computed here when absent, re-computed once on
+        # a mismatch so that a replay on another tree is judged against that tree)
+        pr = case.get("pristine") or {}
+        base, rechecked = {}, set()
         for si in set(case["seq"]):
-            try:
-                base[si] = make_call(SPECS[si], v)()
-            except Exception as e:
-                base[si] = ("error:" + repr(e)[:200], True)
+            base[si] = (pr.get(str(si)) or fresh_digest(SPECS[si], v), True)
+            if str(si) not in pr:
+                rechecked.add(si)
         for pos, si in enumerate(case["seq"]):
             try:
                 d, ok = make_call(SPECS[si], v)()
@@ -315,7 +329,12 @@ def run(case):
             if str(d).startswith("error:"):
                 viol.append(V("call_raises", spec=SPECS[si], position=pos, exc=d))
             elif d != base[si][0]:
-                viol.append(V("result_depends_on_what_ran_before", spec=SPECS[si], position=pos))
+                if si not in rechecked:
+                    rechecked.add(si)
+                    base[si] = (fresh_digest(SPECS[si], v), True)
+                if d != base[si][0]:
+                    viol.append(V("result_depends_on_what_ran_before", spec=SPECS[si],
+                                  position=pos))
             if not ok:
                 viol.append(V("caller_inputs_modified", spec=SPECS[si], position=pos))
         return dict(viol=viol[:4], outcome=f"seq{len(case['seq'])}",
